@@ -81,6 +81,23 @@ CHECKS = {
              'accepted matchers must print, simplify and evaluate on every recorded message of a faulty session. Printable command lines are typed at arbitrary session states.',
         note='The tool reporting an internal error on its own output and carrying on is not an abort. EOF at the prompt and a missing program are outside the property.',
         technique=TECH),
+    'C09': dict(level='exploration', ref='4 C09',
+        text='GDB world: the real plugin.py and extract.py run against an in-process fake `gdb` module over byte-addressed fake inferior memory holding libwayland\'s structures (wl_closure, wl_message, wl_interface, union wl_argument, wl_array, wl_proxy, wl_resource, wl_client, wl_display, wl_connection). '
+             'Closures from client- and server-side connections, sent and received, arrive in scheduler-chosen order (struct-offset cache cold / warm / warmed by the other side); signatures come from the shipped protocols and from per-run synthetic interfaces over i u f s o n a h with ? and version digits, 0-20 arguments. '
+             'Every Message returned by extract.received_message()/sent_message() is compared field by field with the ground-truth closure, and with what the real parse.message() decodes from the libwayland printer model\'s rendering of the same closure.',
+        note='Caveat stated in DESIGN.md: the quantifier is over closures (inputs); the simulator contributes the stand-in peer (gdb + inferior) without which none of extract.py runs, and the history dimension (offset cache, mixed sides). The fake gdb is the trusted base; fixed-point expression semantics were taken from real gdb 13.1.',
+        technique=TECH + '; in-process fake gdb and simulated inferior'),
+    'C10': dict(level='exploration', ref='4 C10',
+        text='GDB world: messages on 1-3 connections from 1-3 inferior threads interleaved by the seeded scheduler with user commands typed whenever the inferior is halted (breakpoint changes through every registered spelling, connection selection, list, help, garbage, wlresume, wlquit, plain gdb continue); '
+             'gdb.execute("continue") re-enters the inferior loop synchronously as in real gdb. For every message the value returned by stop() and the Stopped-at notice are compared with the reference breakpoint state and selection; for every command, continue is executed iff it was resume, quit iff quit, otherwise neither. '
+             'A second workload drives TerminalUI.run_until_stopped with scripted input and counts prompts.',
+        note='Trusted: fake gdb (re-entrant continue), reference matcher (don\'t-cares counted). A command typed while the program runs is modelled as a user interrupt followed by the command.',
+        technique=TECH + '; in-process fake gdb, user actor scheduled at halts'),
+    'C15': dict(level='exploration', ref='4 C15',
+        text='GDB world event sequences: messages on any of several wl_connection addresses from any thread, wl_connection_destroy of open, already closed and never-seen connections, address re-use through a LIFO heap. '
+             'Notices (New on the first message with the role from get_registry direction, Closed exactly when an open one is destroyed, silence for other destroys), fresh names and object tables after re-use (per-connection C02/C03 oracles), connections() bookkeeping, no exception out of any stop().',
+        note='Trusted: fake gdb and simulated inferior; an exception raised by stop() halts the inferior as in real gdb.',
+        technique=TECH + '; in-process fake gdb and simulated inferior'),
 }
 
 NOT_APPLICABLE = [
